@@ -1,10 +1,11 @@
 import CifModel.Lemmas.WriterTotal
+import CifModel.Lemmas.WriterLines
 /-
   Property C02 — whole documents.  (Separate from Props/C02.lean only because these theorems are proved from lemmas that
   themselves use the value-level theorems of Props/C02.lean.)
 -/
 namespace CifModel
-open Model.Writer Lemmas.WriterTotal
+open Model.Writer Lemmas.WriterTotal Lemmas.WriterLines
 
 /-- **C02_total.**  `cif_write` in CIF 2.0 mode, for every walk order (`WCif`): on every writable CIF — every loop holds a
     packet; every scalar data name has at least two units and at most 2048 characters; every number has a non-empty text
@@ -32,10 +33,63 @@ theorem C02_total_no_tables (cif : WCif) (hok : containersOk cif) (hnt : ¬ cont
   · exact h
   · exact absurd hw hnt
 
+/-- **C02_line_bound** (whole documents, both output versions, every walk order).  Whenever `cif_write` succeeds on a CIF
+    whose block / frame codes leave room for `data_` / `save_`, whose data names fit a line, whose strings hold neither NUL
+    nor CR and whose number texts are one line of at most 2048 units (`containersL`; the last condition is the open finding
+    F-number-overlong), no line of the output is longer than 2048 code units — hence 2048 characters — and the output begins
+    with the version comment.  Proved through the column-tracking invariant `LineOk`: `last_column` never underestimates the
+    true column, every wrap decision is therefore safe, and every line break resets both. -/
+theorem C02_line_bound (version : Nat) (cif : WCif) (out : Str) (h : containersL cif)
+    (hw : writeCif version cif = .ok out) :
+    (∀ l ∈ splitLines out, l.length ≤ LINE) ∧ (if version = 1 then MAGIC11 else MAGIC20) <+: out := by
+  unfold writeCif at hw
+  simp only at hw
+  generalize hc0 : ({ version := if version = 1 then 1 else 0 } : Ctx) = c0 at hw
+  have hcol : c0.lastColumn = 0 := by rw [← hc0]
+  have hmagic : (if c0.isCif1 then MAGIC11 else MAGIC20) = (if version = 1 then MAGIC11 else MAGIC20) := by
+    rw [← hc0]; by_cases hv : version = 1 <;> simp [hv, Ctx.isCif1]
+  rw [hmagic] at hw
+  -- the invariant for the whole run
+  have L : LineOk c0 (andThen (.ok ((if version = 1 then MAGIC11 else MAGIC20), c0)) fun c1 =>
+      andThen (writeContainers cif c1) fun c2 => .ok (writeNewline c2)) := by
+    apply lineOk_andThen_ok
+    · apply lineOk_of_track c0 _ _ (by rw [hcol]; exact Nat.zero_le _)
+      intro _ k hk
+      have hk0 : k = 0 := by omega
+      subst hk0
+      by_cases hv : version = 1
+      · simp only [hv, ↓reduceIte]; rw [hcol]; decide
+      · simp only [hv, ↓reduceIte]; rw [hcol]; decide
+    · apply lineOk_andThen (lineOk_containers cif c0 h)
+      intro c2; exact lineOk_newline c2
+  cases hr : (andThen (.ok ((if version = 1 then MAGIC11 else MAGIC20), c0)) fun c1 =>
+      andThen (writeContainers cif c1) fun c2 => (.ok (writeNewline c2) : W)) with
+  | error e => simp [hr] at hw
+  | ok p =>
+    obtain ⟨o, c'⟩ := p
+    simp only [hr, Except.ok.injEq] at hw
+    subst hw
+    obtain ⟨_, hfit⟩ := L (by rw [hcol]; exact Nat.zero_le _) o c' hr
+    refine ⟨all_lines_of_fitsU o (hfit 0 (Nat.zero_le _)).1, ?_⟩
+    -- the output starts with the version comment
+    unfold andThen at hr
+    simp only at hr
+    split at hr
+    · cases hr
+    · rename_i o2 c2 _
+      simp only [Except.ok.injEq, Prod.mk.injEq] at hr
+      rw [← hr.1]
+      exact List.prefix_append _ _
+
 -- non-vacuity: a writable CIF with a scalar item, a loop, a list and a table
 example : containersOk [WContainer.mk (a!"b") []
     [{ category := some [], header := [a!"_x"], packets := [[(a!"_x", V.lst [V.chr true (a!"a b"), V.tbl [(a!"k", a!"k", V.unk)]])]] },
      { category := none, header := [a!"_y"], packets := [[(a!"_y", V.numb false (a!"12") false [] none 0)]] }]] := by
   simp [containersOk, containerOk, loopOk, itemsOk, isScalars, valueOk, elemsOk, entriesOk, nameOk, countChar32, LINE]
+
+example : containersL [WContainer.mk (a!"b") []
+    [{ category := some [], header := [a!"_x"], packets := [[(a!"_x", V.lst [V.chr true (a!"a b"), V.tbl [(a!"k", a!"k", V.unk)]])]] },
+     { category := none, header := [a!"_y"], packets := [[(a!"_y", V.numb false (a!"12") false [] none 0)]] }]] := by
+  simp [containersL, containerL, codeL, loopL, headerL, itemsL, valueL, elemsL, entriesL, nameL, strOk, numbOk, countChar32, LINE]
 
 end CifModel
